@@ -31,6 +31,8 @@ pub const ID_SIBLING: u64 = 1; // 1..
 pub const ID_TARGET: u64 = 50;
 pub const ID_CLOSED: u64 = 60;
 pub const ID_FOLLOW: u64 = 70;
+pub const WINDOW_PROBE_REFUSED_BYTES: u32 = 48_000;
+pub const WINDOW_PROBE_UPLOAD: usize = 60_000;
 pub const ID_ABUSE: u64 = 80; // streams opened by raw abusive HEADERS: 80.., 1000.. for the concurrency test
 pub const ID_MCS: u64 = 1000;
 pub const ID_GOOD2: u64 = 100;
@@ -52,9 +54,12 @@ pub struct H2Knobs {
     pub header_list: u32,
     pub abusive_rst: u32,
     pub stream_idle_s: u32,
+    /// h2_initial_connection_window (0 = not set: sozu's 1 MiB)
+    #[serde(default)]
+    pub conn_window: u32,
 }
 impl Default for H2Knobs {
-    fn default() -> Self { H2Knobs { rst_window: 100, ping_window: 100, settings_window: 50, empty_data_window: 100, wu0_window: 100, continuation: 20, glitch: 100, max_streams: 100, header_list: 65536, abusive_rst: 50, stream_idle_s: 10 } }
+    fn default() -> Self { H2Knobs { rst_window: 100, ping_window: 100, settings_window: 50, empty_data_window: 100, wu0_window: 100, continuation: 20, glitch: 100, max_streams: 100, header_list: 65536, abusive_rst: 50, stream_idle_s: 10, conn_window: 0 } }
 }
 
 #[derive(Clone, Debug, PartialEq, Serialize, Deserialize)]
@@ -93,7 +98,10 @@ pub enum Kind {
     Oversized { fields: u32, field_len: u32 },
     /// `hpack_probe`: the streams above the limit carry a literal with incremental indexing, and a later
     /// request refers to it (RFC 9113 §4.3: a refused field block must still be processed)
-    TooManyStreams { extra: u32, #[serde(default)] hpack_probe: bool, #[serde(default)] with_body: bool },
+    /// `window_probe` (with `with_body`): the refused requests carry 48 000 octets of DATA between them on a connection whose
+    /// receive window is the minimum (65 535), and a 60 000-octet upload follows once streams are free again: DATA on streams
+    /// sozu has refused still has to be given back to the connection window (RFC 9113 6.9), or that upload never finishes
+    TooManyStreams { extra: u32, #[serde(default)] hpack_probe: bool, #[serde(default)] with_body: bool, #[serde(default)] window_probe: bool },
 }
 
 #[derive(Clone, Debug, PartialEq, Serialize, Deserialize)]
@@ -275,7 +283,7 @@ pub fn build_abuser(ca: &ClientAbuse, h2: &H2Knobs, sibling_len: usize) -> (bool
         Kind::Wu0Flood { count } => s.push(ClientOp::Abuse(AbuseOp::WindowUpdate { stream: StreamRef::Conn, increment: 1, count: *count })),
         Kind::GlitchFlood { count } => s.push(ClientOp::Abuse(AbuseOp::WindowUpdate { stream: StreamRef::LastClosed, increment: 1, count: *count })),
         Kind::Oversized { fields, field_len } => s.push(ClientOp::Abuse(AbuseOp::OversizedHeaders { fields: *fields, field_len: *field_len, authority: HOST_A.into() })),
-        Kind::TooManyStreams { extra, hpack_probe, with_body } => {
+        Kind::TooManyStreams { extra, hpack_probe, with_body, window_probe } => {
             for i in 0..(h2.max_streams + extra) {
                 let mut block = req_block(ID_MCS + i as u64, &format!("/mcs/{i}"));
                 if *hpack_probe && i >= h2.max_streams { HpackEncoder::literal(&mut block, b"x-dyn", format!("v{i}").as_bytes(), Repr::IncrIndex, None, false); }
@@ -283,7 +291,16 @@ pub fn build_abuser(ca: &ClientAbuse, h2: &H2Knobs, sibling_len: usize) -> (bool
                 // RST_STREAM(REFUSED_STREAM) leaves, and must be tolerated (RFC 9113 5.1, closed state)
                 let body = *with_body && i >= h2.max_streams;
                 s.push(ClientOp::Abuse(AbuseOp::Frame { ty: ftype::HEADERS, flags: if body { flag::END_HEADERS } else { flag::END_STREAM | flag::END_HEADERS }, stream: StreamRef::Fresh, declared_len: None, payload: block }));
-                if body { s.push(ClientOp::Abuse(AbuseOp::Frame { ty: ftype::DATA, flags: flag::END_STREAM, stream: StreamRef::LastOpened, declared_len: None, payload: vec![b'x'; 10] })); }
+                if body && *window_probe {
+                    let mut left = WINDOW_PROBE_REFUSED_BYTES / *extra;
+                    while left > 0 { let n = left.min(16000); left -= n; s.push(ClientOp::Abuse(AbuseOp::CountedData { stream: StreamRef::LastOpened, len: n, end_stream: left == 0 })); }
+                } else if body { s.push(ClientOp::Abuse(AbuseOp::Frame { ty: ftype::DATA, flags: flag::END_STREAM, stream: StreamRef::LastOpened, declared_len: None, payload: vec![b'x'; 10] })); }
+            }
+            if *window_probe {
+                // the accepted requests are answered after 2 s: streams are free again
+                s.push(ClientOp::Sleep(4 * SEC));
+                s.push(ClientOp::Abuse(AbuseOp::SettleRawStreams));
+                s.push(ClientOp::Req(H2ReqSpec::post(ID_FOLLOW, HOST_A, "/upload-after-refused", WINDOW_PROBE_UPLOAD)));
             }
             if *hpack_probe {
                 s.push(ClientOp::Sleep(3 * SEC));
@@ -333,6 +350,7 @@ fn config_requests(p: &NetPlan) -> Vec<Request> {
     lt.h2_max_header_list_size = set(p.h2.header_list, d.header_list);
     lt.h2_max_rst_stream_abusive_lifetime = set(p.h2.abusive_rst, d.abusive_rst).map(|x| x as u64);
     lt.h2_stream_idle_timeout_seconds = Some(p.h2.stream_idle_s);
+    if p.h2.conn_window != 0 { lt.h2_initial_connection_window = Some(p.h2.conn_window); }
     if m.h2_deadline_secs.is_some() { lt.h2_graceful_shutdown_deadline_seconds = m.h2_deadline_secs; }
     v.push(RequestType::AddHttpsListener(lt.to_tls(None).unwrap()).into());
     let names: Vec<String> = m.clusters.iter().map(|c| c.host.clone()).chain(std::iter::once("nohost.test".to_string())).collect();
